@@ -144,8 +144,9 @@ func New(config ...Config) fiber.Handler {
 			if e.exp != 0 && ts >= e.exp {
 				deleteKey(key)
 				if cfg.MaxBytes > 0 {
-					_, size := heap.remove(e.heapidx)
-					storedBytes -= size
+					if size, ok := heap.remove(e.heapidx, key); ok {
+						storedBytes -= size
+					}
 				}
 			} else if e.exp != 0 && !hasRequestDirective(c, noCache) {
 				// Separate body value to avoid msgp serialization
